@@ -321,7 +321,7 @@ func (u *Unit) entryHeldAssume(key, n string) {
 // threadLocalKey: ghost lock state, local cells and iteration ghosts cannot be changed by code
 // the function calls without a contract (see havocAll)
 func threadLocalKey(k string) bool {
-	return strings.HasPrefix(k, "Held.") || strings.HasPrefix(k, "Blk.") || strings.HasPrefix(k, "cell.") || strings.HasPrefix(k, "iter.") ||
+	return immutableKeys[k] || strings.HasPrefix(k, "Held.") || strings.HasPrefix(k, "Blk.") || strings.HasPrefix(k, "cell.") || strings.HasPrefix(k, "iter.") ||
 		strings.HasPrefix(k, "Calls.") || strings.HasPrefix(k, "Arg.") || strings.HasPrefix(k, "Res.") || strings.HasPrefix(k, "CalledWith.")
 }
 
